@@ -587,7 +587,7 @@ func init() {
 				nsec := d.Signed() % 1e9
 				return F64(float64(sec) + float64(nsec)/1e9)
 			}
-			panic(unsupported("Duration.Seconds of symbolic duration"))
+			return r.monoFallback(c, fn, a)
 		},
 		"(time.Duration).String": func(r *Run, c *frame, fn *ssa.Function, a []Value) Value { return r.freshStr("durstr") },
 
